@@ -37,7 +37,10 @@ def main():
     A = Tensor.from_dok({(0, 1): 2.0, (1, 0): 3.0, (1, 2): 1.0}, dimensions=(2, 3), format="ds")
     # E has a support disjoint from A's, so a product with it gives a compressed result with NO stored coordinate
     E = Tensor.from_dok({(0, 0): 5.0}, dimensions=(2, 3), format="ss")
-    FMT = {"sparse": "ss", "dense": "dd", "scalar": "", "empty": "ss", "empty_ds": "ds", "direct": "ss", "direct_dense": "dd"}
+    # F is completely full, so A + F gives a compressed result in which every position is stored
+    F = Tensor.from_dok({(i, j): float(1 + i + j) for i in range(2) for j in range(3)}, dimensions=(2, 3), format="ds")
+    FMT = {"sparse": "ss", "dense": "dd", "scalar": "", "empty": "ss", "empty_ds": "ds", "direct": "ss", "direct_dense": "dd",
+           "full_strict": "ss"}
 
     def run_direct(text, out_fmt, inputs):
         """A TensorMethod built directly from a Problem whose formats are NOT in target-first order (legal API; only
@@ -67,6 +70,12 @@ def main():
 
     def expression(in_kind, out_kind):
         o = "y(i,j)" if out_kind != "scalar" else "y()"
+        if out_kind == "full_strict":
+            if in_kind is None:
+                return "y(i,j) = A(i,j) + F(i,j)"
+            if in_kind == "scalar":
+                return "y(i,j) = A(i,j) * x() + F(i,j)"
+            return "y(i,j) = x(i,j) * A(i,j) + F(i,j)"
         if out_kind in ("empty", "empty_ds"):
             if in_kind is None:
                 return "y(i,j) = A(i,j) * E(i,j)"
@@ -89,7 +98,17 @@ def main():
                 src = req.get("input")
                 lib.verif_capture(1)
                 try:
-                    extra = {"E": E} if req["kind"] in ("empty", "empty_ds") else {}
+                    extra = {"E": E} if req["kind"] in ("empty", "empty_ds") else ({"F": F} if req["kind"] == "full_strict" else {})
+                    if req["kind"] == "full_strict":
+                        # the process runs with warnings turned into errors for this call (python -W error, pytest -W
+                        # error): nothing between the kernel and the hand-over of its arrays may be able to raise
+                        import warnings
+
+                        strict = warnings.catch_warnings()
+                        strict.__enter__()
+                        warnings.simplefilter("error")
+                    else:
+                        strict = None
                     direct = req["kind"].startswith("direct")
                     okind = {"direct": "sparse", "direct_dense": "dense"}.get(req["kind"], req["kind"])
                     if src is None:
@@ -107,6 +126,8 @@ def main():
                         del x
                 finally:
                     lib.verif_capture(0)
+                    if strict is not None:
+                        strict.__exit__(None, None, None)
                 oid = next_id[0]
                 next_id[0] += 1
                 ptrs = addresses(res)
